@@ -13,6 +13,7 @@ CONSTANTS
     InsertFirst = FALSE
     WithHold = FALSE
     MaxLen = 9
+    V6Flows = {}
     BigOn = 3
     ErrReadNeedsReply = FALSE
     WithFault = FALSE
